@@ -1,23 +1,24 @@
 (* C13 — a time-domain program means its explicit loop, however it is unrolled.
    Only statements, each closed by `exact`, each followed by its axiom audit, plus Examples showing
    the hypotheses are satisfiable.  Model: coq/C13/Model.v (tied to strawberryfields/tdm/program.py by
-   the correspondence run of tools/props/c13.py).
+   the correspondence run of tools/props/c13.py); it describes the code AFTER the fix commits
+   253979f, 225c39f, 5a2f473.  The behaviour before them is kept as *_old definitions in coq/C13/Old.v,
+   only to keep its refutations machine-checked (last section).
 
    Reading guide.  `unroll_program N sh space T cs shots q` is TDMProgram._unroll_program on register q;
    `loop_program N T cs shots` is the loop written out by hand with the fresh mode (band, pulse) for
-   every pulse; `rho N` maps pulse (b, j) to register reference start_b + j mod N_b.
-   `plain_cmd c` = no dagger, no select, no non-atomic symbolic parameter, rebuildable class: the
-   excluding hypothesis forced by the defects recorded in known_findings.d/C13.json (each one has a
-   `_refuted` theorem below). *)
+   every pulse, every operation keeping its dagger / select and having every parameter (constant, p[k]
+   or an expression in p[k]) evaluated at the time bin; `rho N` maps pulse (b, j) to register reference
+   start_b + j mod N_b. *)
 From Coq Require Import List ZArith Bool Arith.
 Import ListNotations.
-From SFV Require Import C13.Model C13.Proofs C13.Machine C13.Layout.
+From SFV Require Import C13.Model C13.Proofs C13.Machine C13.Layout C13.Order C13.Old C13.OldRefuted.
 
 (* 1. register shifting (default shift, any number of bands, any band sizes, time bins, shots,
-      parameter arrays): the unrolled circuit is, command by command, the image of the explicit loop. *)
+      parameter arrays, ANY commands incl. daggered gates, post-selected measurements, expression
+      parameters): the unrolled circuit is, command by command, the image of the explicit loop. *)
 Theorem C13_shift_refines_loop :
   forall (N : list nat) (T : nat) (cs : list rcmd),
-    Forall (fun c => plain_cmd c = true) cs ->
     Forall (fun c => Forall (fun r => r < sum_list N) (r_regs c)) cs ->
     forall shots : nat,
     unroll_program N ShDefault false T cs shots (seq 0 (sum_list N))
@@ -43,7 +44,6 @@ Print Assumptions C13_reuse_separated.
 Theorem C13_shift_int :
   forall (N : list nat) (n s T : nat) (cs : list rcmd),
     s <= n ->
-    Forall (fun c => plain_cmd c = true) cs ->
     Forall (fun c => Forall (fun r => r < n) (r_regs c)) cs ->
     forall shots,
     unroll_program N (ShInt (Z.of_nat s)) false T cs shots (seq 0 n)
@@ -52,29 +52,46 @@ Proof. exact shift_int_refines_loop. Qed.
 Print Assumptions C13_shift_int.
 
 (* 4. space unrolling of a single band for one shot IS the explicit loop (the looped-back filter never
-      fires), on the register of n + (T-1) modes that space_unroll allocates. *)
+      fires), on the register of n + (T-1) modes that space_unroll allocates.  (Two or more shots:
+      refuted below, known finding space_unroll:shots>1.) *)
 Theorem C13_space_unroll :
   forall (N : list nat) (sh : shiftspec) (n T : nat) (cs : list rcmd),
     0 < n ->
-    Forall (fun c => plain_cmd c = true) cs ->
     Forall (fun c => Forall (fun r => r < n) (r_regs c)) cs ->
     unroll_program N sh true T cs 1 (seq 0 (n + (T - 1))) = Some (loop_program_int 1 T cs 1).
 Proof. exact space_unroll_is_loop. Qed.
 Print Assumptions C13_space_unroll.
 
-(* 5. after ANY history of unroll / space_unroll / roll / lock calls, roll() gives back the rolled
-      circuit, the original ACTIVE register, init_num_subsystems, empty caches, and does not touch the
-      lock flag.  _partial: "register exactly" (inactive leftovers) and "lock flag preserved by unroll"
-      are refuted below. *)
-Theorem C13_roll_restores_partial :
+(* 5. after ANY history of unroll / space_unroll / roll / lock calls, roll() restores the rolled
+      circuit, the WHOLE register (every RegRef with its active flag), init_num_subsystems and the
+      caches exactly; the lock flag is true iff lock() was called in the history. *)
+Theorem C13_roll_restores :
   forall (N : list nat) (sh : shiftspec) (T : nat) (cs : list rcmd) (h : list call),
     let st := run_calls N sh T cs (init_state N) h in
-    (st_circ (do_roll st) = CRolled /\ register (do_roll st) = seq 0 (concurr N) /\
-     st_init (do_roll st) = Z.of_nat (concurr N) /\
-     st_unrolled (do_roll st) = None /\ st_space (do_roll st) = None /\ st_shots (do_roll st) = None)
-    /\ st_locked (do_roll st) = st_locked st.
-Proof. exact roll_restores_active. Qed.
-Print Assumptions C13_roll_restores_partial.
+    st_circ (do_roll st) = CRolled /\
+    st_regs (do_roll st) = st_regs (init_state N) /\
+    st_init (do_roll st) = st_init (init_state N) /\
+    st_unrolled (do_roll st) = None /\ st_space (do_roll st) = None /\ st_shots (do_roll st) = None /\
+    st_locked (do_roll st) = existsb is_lock h.
+Proof. exact roll_restores. Qed.
+Print Assumptions C13_roll_restores.
+
+(* 5b. no call other than lock() changes the lock flag, in any state *)
+Theorem C13_lock_preserved :
+  forall (N : list nat) (sh : shiftspec) (T : nat) (cs : list rcmd) (st : pstate) (c : call),
+    c <> Lock -> st_locked (fst (step N sh T cs st c)) = st_locked st.
+Proof. exact step_locked. Qed.
+Print Assumptions C13_lock_preserved.
+
+(* 5c. unrolling / space-unrolling after any history followed by roll() builds the same circuit as
+       on a fresh program *)
+Theorem C13_unroll_history_independent :
+  forall (N : list nat) (sh : shiftspec) (T : nat) (cs : list rcmd) (h : list call) (s : nat),
+    let st := do_roll (run_calls N sh T cs (init_state N) h) in
+    st_circ (fst (do_unroll N sh T cs s st)) = st_circ (fst (do_unroll N sh T cs s (init_state N))) /\
+    st_circ (fst (do_space_unroll N sh T cs s st)) = st_circ (fst (do_space_unroll N sh T cs s (init_state N))).
+Proof. exact unroll_after_history_is_fresh. Qed.
+Print Assumptions C13_unroll_history_independent.
 
 (* 6. sample layout.  Full statement (not proved for unbounded sizes): *)
 Definition C13_samples_layout_statement : Prop :=
@@ -88,49 +105,60 @@ Theorem C13_samples_layout_bounded_partial :
 Proof. exact samples_layout_bounded. Qed.
 Print Assumptions C13_samples_layout_bounded_partial.
 
-(* ---- refuted on the faithful model (each reproduced on the implementation, see known_findings.d/C13.json) *)
-Theorem C13_dagger_refuted : exists cs,
-  Forall (fun c => Forall (fun r => r < sum_list [2]) (r_regs c)) cs /\
-  unroll_program [2] ShDefault false 3 cs 1 (seq 0 2) <> Some (map (rename (rho [2])) (loop_program [2] 3 cs 1)).
-Proof. exact dagger_refuted. Qed.
-Print Assumptions C13_dagger_refuted.
+(* 6b. unbounded part of the layout: for every list of non-empty bands and every number G of time
+       bins (= shots * timebins), _get_mode_order returns exactly the order in which the unrolled
+       default-shift circuit measures (bin by bin, band by band, band b on start_b + g mod N_b). *)
+Theorem C13_mode_order :
+  forall (N : list nat) (G : nat),
+    N <> [] -> Forall (fun n => 0 < n) N ->
+    get_mode_order (G * length N) (measured N) N
+    = Some (flat_map (fun g => map (fun b => band_start N b + g mod nth b N 1) (seq 0 (length N))) (seq 0 G)).
+Proof. exact mode_order_is_measurement_order. Qed.
+Print Assumptions C13_mode_order.
 
-Theorem C13_expr_param_refuted : exists cs,
-  Forall (fun c => Forall (fun r => r < sum_list [2]) (r_regs c)) cs /\
-  unroll_program [2] ShDefault false 3 cs 1 (seq 0 2) = None.
-Proof. exact expr_refuted. Qed.
-Print Assumptions C13_expr_param_refuted.
-
+(* ---- refuted for the CURRENT code (reproduced on the implementation, known_findings.d/C13.json) *)
 Theorem C13_space_shots_refuted : exists cs,
-  Forall (fun c => plain_cmd c = true) cs /\ Forall (fun c => Forall (fun r => r < 2) (r_regs c)) cs /\
+  Forall (fun c => Forall (fun r => r < 2) (r_regs c)) cs /\
   unroll_program [2] ShDefault true 3 cs 2 (seq 0 (2 + (3 - 1))) <> Some (loop_program_int 1 3 cs 2).
 Proof. exact space_shots_refuted. Qed.
 Print Assumptions C13_space_shots_refuted.
-
-Theorem C13_roll_register_refuted : exists h,
-  st_regs (run_calls [2] ShDefault 3 ex_prog (init_state [2]) h) <> st_regs (init_state [2]) /\ last h Lock = Roll.
-Proof. exact roll_register_refuted. Qed.
-Print Assumptions C13_roll_register_refuted.
-
-Theorem C13_lock_refuted : exists h, In Lock h /\
-  st_locked (run_calls [2] ShDefault 3 ex_prog (init_state [2]) h) = false.
-Proof. exact lock_refuted. Qed.
-Print Assumptions C13_lock_refuted.
-
-Theorem C13_space_unroll_again_refuted : exists h,
-  let st := run_calls [2] ShDefault 3 ex_prog (init_state [2]) h in
-  (st_init st <= Z.of_nat (max_mode (st_circ st)))%Z.
-Proof. exact space_unroll_again_refuted. Qed.
-Print Assumptions C13_space_unroll_again_refuted.
 
 Theorem C13_space_reshape_refuted : exists n T,
   reshape_samples (map (fun g => (g, [g])) (seq 0 T)) [0] [n] T = None.
 Proof. exact space_reshape_refuted. Qed.
 Print Assumptions C13_space_reshape_refuted.
 
+(* ---- refuted for the behaviour BEFORE the fix commits (definitions *_old of coq/C13/Old.v only) *)
+Theorem C13_dagger_old_refuted : exists cs,
+  Forall (fun c => Forall (fun r => r < sum_list [2]) (r_regs c)) cs /\
+  unroll_program_old [2] ShDefault false 3 cs 1 (seq 0 2) <> Some (map (rename (rho [2])) (loop_program [2] 3 cs 1)).
+Proof. exact dagger_old_refuted. Qed.
+Print Assumptions C13_dagger_old_refuted.
+
+Theorem C13_expr_param_old_refuted : exists cs,
+  Forall (fun c => Forall (fun r => r < sum_list [2]) (r_regs c)) cs /\
+  unroll_program_old [2] ShDefault false 3 cs 1 (seq 0 2) = None.
+Proof. exact expr_old_refuted. Qed.
+Print Assumptions C13_expr_param_old_refuted.
+
+Theorem C13_roll_register_old_refuted : exists h,
+  st_regs (run_calls_old [2] ShDefault 3 ex_prog (init_state [2]) h) <> st_regs (init_state [2]) /\ last h Lock = Roll.
+Proof. exact roll_register_old_refuted. Qed.
+Print Assumptions C13_roll_register_old_refuted.
+
+Theorem C13_lock_old_refuted : exists h, In Lock h /\
+  st_locked (run_calls_old [2] ShDefault 3 ex_prog (init_state [2]) h) = false.
+Proof. exact lock_old_refuted. Qed.
+Print Assumptions C13_lock_old_refuted.
+
+Theorem C13_space_unroll_again_old_refuted : exists h,
+  let st := run_calls_old [2] ShDefault 3 ex_prog (init_state [2]) h in
+  (st_init st <= Z.of_nat (max_mode (st_circ st)))%Z.
+Proof. exact space_unroll_again_old_refuted. Qed.
+Print Assumptions C13_space_unroll_again_old_refuted.
+
 (* ---- the hypotheses are satisfiable *)
 Example C13_hyps_inhabited :
-  Forall (fun c => plain_cmd c = true) ex_prog /\
   Forall (fun c => Forall (fun r => r < sum_list [2]) (r_regs c)) ex_prog /\
   loop_program [2] 3 ex_prog 1 <> [].
-Proof. split; [repeat constructor|split; [repeat constructor|discriminate]]. Qed.
+Proof. split; [repeat constructor|discriminate]. Qed.
